@@ -100,6 +100,8 @@ CHECKS = {
             {"name": "installs", "pkg": "pkg/registry", "harness": "c19", "run": "^TestVerifC19Installs$", "shards": 16, "shards_thorough": 16},
             {"name": "crash", "pkg": "pkg/registry", "harness": "c19", "run": "^TestVerifC19Crash$", "shards": 8},
             {"name": "concurrent", "pkg": "pkg/registry", "harness": "c19", "run": "^TestVerifC19ConcurrentIndex$"},
+            # VerifyIndex histories with every single file-system fault (EACCES / EROFS / EIO / ENOSPC at every syscall)
+            {"name": "index-faults", "pkg": "pkg/registry", "harness": "c19", "run": "^TestVerifC19IndexFaults$", "shards": 16, "shards_thorough": 16},
         ],
     },
     "C20": {
